@@ -95,7 +95,7 @@ impl<F: Fn(TracingEvent) + Send + Sync + 'static> Subscriber for Tee<F> {
         } else {
             SParent::Explicit(attrs.parent().expect("explicit parent").into_u64())
         };
-        let vals = TracedValues::<String>::from_values(attrs.values());
+        let vals = seen_in_values(attrs.values());
         match catch_unwind(AssertUnwindSafe(|| self.sender.new_span(attrs))) {
             Ok(id) => {
                 self.push(Call::NewSpan { id: id.into_u64(), meta, parent, vals });
@@ -113,7 +113,7 @@ impl<F: Fn(TracingEvent) + Send + Sync + 'static> Subscriber for Tee<F> {
             return;
         }
         self.sender.record(span, values);
-        self.push(Call::Record(span.into_u64(), TracedValues::<String>::from_record(values)));
+        self.push(Call::Record(span.into_u64(), seen_in_record(values)));
     }
     fn record_follows_from(&self, span: &Id, follows: &Id) {
         if self.is_off() {
@@ -137,7 +137,7 @@ impl<F: Fn(TracingEvent) + Send + Sync + 'static> Subscriber for Tee<F> {
             SParent::Explicit(event.parent().expect("explicit parent").into_u64())
         };
         self.sender.event(event);
-        self.push(Call::Event { meta: addr(event.metadata()), parent, vals: TracedValues::<String>::from_event(event) });
+        self.push(Call::Event { meta: addr(event.metadata()), parent, vals: seen_in_event(event) });
     }
     fn enter(&self, span: &Id) {
         if self.is_off() {
